@@ -136,3 +136,40 @@ Definition sorter_run (c : scfg) (mf : mergefn) (ins : list entry) : outcome (li
 (* ---- the specification: sort-and-merge of all inserts ---- *)
 Definition sorter_spec (mf : mergefn) (ins : list entry) : outcome (list entry) :=
   do r <- merge_groups mf 0 (group_sorted (sort_entries ins)); Done (fst r).
+
+(* ---- the purely numeric projection (sizes only): buffer bookkeeping, chunk counts,
+        chunk-creator calls and the peak number of chunks alive at the same time ---- *)
+Record nstate : Type := mk_nstate {
+  ns_buf : ebuf;
+  ns_chunks : N;       (* self.chunks.len() *)
+  ns_creates : N;      (* ChunkCreator::create calls *)
+  ns_peak : N }.       (* max number of chunk objects alive at once *)
+
+Definition n_new (c : scfg) : nstate := mk_nstate (mk_ebuf (round_up (sc_init_cap c)) 0 0) 0 0 0.
+
+Definition n_insert (c : scfg) (st : nstate) (sz : N) : outcome nstate :=
+  do f <- eb_fits (ns_buf st) sz;
+  let threshold_exceeded := sc_threshold c <=? eb_L (ns_buf st) in
+  if f || (negb threshold_exceeded && sc_realloc c) then
+    do b <- eb_insert 80 (ns_buf st) sz;
+    Done (mk_nstate b (ns_chunks st) (ns_creates st) (ns_peak st))
+  else
+    (* write_chunk: one create, one more chunk; the buffer is cleared but keeps its size *)
+    let chunks1 := ns_chunks st + 1 in
+    let peak1 := N.max (ns_peak st) chunks1 in
+    do b <- eb_insert 80 (mk_ebuf (eb_L (ns_buf st)) 0 0) sz;
+    if sc_max_chunks c <=? chunks1 then
+      (* merge_chunks: one create while all chunks are still alive, then a single chunk *)
+      Done (mk_nstate b 1 (ns_creates st + 2) (N.max peak1 (chunks1 + 1)))
+    else Done (mk_nstate b chunks1 (ns_creates st + 1) peak1).
+
+Fixpoint n_inserts (c : scfg) (st : nstate) (szs : list N) : outcome nstate :=
+  match szs with
+  | [] => Done st
+  | sz :: r => do st' <- n_insert c st sz; n_inserts c st' r
+  end.
+
+(* the final flush of into_stream_merger_iter & co: one more create and chunk *)
+Definition n_finish (st : nstate) : nstate :=
+  mk_nstate (mk_ebuf (eb_L (ns_buf st)) 0 0) (ns_chunks st + 1) (ns_creates st + 1)
+            (N.max (ns_peak st) (ns_chunks st + 1)).
